@@ -7,6 +7,7 @@ floats), the notification stream and the output-statistic map of that replicatio
 same replication on a brand-new simulator and model.
 """
 import os
+import time
 import sys
 
 ID = "C06"
@@ -22,7 +23,7 @@ ASSUMPTIONS = ["streams are re-created with the same seed in construct_model (no
                "the second replication uses the same model object and the same replication settings"]
 
 HIST = ["fresh", "step", "pause", "bounded", "ended", "fault", "cleanup", "init_while_running", "ended_twice", "end_replication",
-        "init_while_starting", "touched", "other_model", "longer_before"]
+        "init_while_starting", "touched", "other_model", "longer_before", "chained"]
 
 
 def plan(tier):
@@ -114,6 +115,26 @@ def run_case(case, ctx):
                 a.cmd("run_up_to_including", [float(b), "s"] if prog["clock"] == "duration" else b)
             a.wait_quiescent(20)
             a.replication = normal
+        elif hist == "chained" and case["k"] != 1:
+            a.cmd("start")       # (only a fifth of these cases chain: initialising from the run thread costs the library's own waits, ~2 s)
+        elif hist == "chained":
+            # the next replication is initialised from inside the END_REPLICATION notification of this one (an experiment
+            # driver chaining replications on the run thread)
+            chained = {}
+
+            def on_end(name, event):
+                if name == "END_REPLICATION_EVENT" and "out" not in chained:
+                    chained["first_h"], chained["first_n"], chained["n_inits"] = len(a.hlog), len(a.nlog), a.inits
+                    chained["old_worker"] = a.worker()
+                    chained["out"] = a.cmd("initialize")
+            a.on_notify = on_end
+            a.cmd("start")
+            t0 = time.time()
+            while "out" not in chained and time.time() - t0 < 20:
+                time.sleep(0.001)
+            a.on_notify = None
+            if chained.get("old_worker") is not None:
+                chained["old_worker"].join(5.0)
         elif hist in ("ended", "ended_twice"):
             a.cmd("start")
         elif hist == "fault":
@@ -223,7 +244,11 @@ def run_case(case, ctx):
         _swap_program(a, prog)
         first_h, first_n = len(a.hlog), len(a.nlog)
         n_inits = a.inits
-        out = a.cmd("initialize")
+        if hist == "chained" and case["k"] == 1 and "out" in chained:
+            first_h, first_n, n_inits, out = chained["first_h"], chained["first_n"], chained["n_inits"], chained["out"]
+            ctx.count("replications_initialised_from_the_END_REPLICATION_notification")
+        else:
+            out = a.cmd("initialize")
         if out != "ok":
             ctx.viol(f"re-initialize-raises:{out}", {**where, "state_before": hist})
             return
